@@ -90,7 +90,11 @@ const burstRoute = "/burst"
 // are placeholders of the in-memory network and must be unique per boot).
 func specDSL(sp Spec) string {
 	var b strings.Builder
-	b.WriteString("defaults {\n  egress {\n    deny \"" + deniedHost + "\"\n    https_only off\n    redirects off\n    dns_rebind_protection off\n  }\n")
+	if sp.Egress != "" {
+		b.WriteString("defaults {\n" + redirEgressBlock(sp.Egress)) // part h (redir_test.go)
+	} else {
+		b.WriteString("defaults {\n  egress {\n    deny \"" + deniedHost + "\"\n    https_only off\n    redirects off\n    dns_rebind_protection off\n  }\n")
+	}
 	if sp.Defaults != nil {
 		b.WriteString("  deliver {\n" + deliverBody(*sp.Defaults, "    ") + "  }\n")
 	}
